@@ -1,19 +1,26 @@
 (* C20 — concurrent first use and concurrent calls give the sequential results.
    Only statements closed by `exact` / short glue, and Print Assumptions.
 
-   PARTIAL: the theorems are about the micro-step model of coq/model/ConcModel.v (one
-   scheduling point per shared-table access; CPython rules R1-R4 stated there).  Missing
-   for the full property: races inside a micro-step, C-extension GIL release points,
-   free-threaded builds, the v1 engine as a full program (only one abstract protocol). *)
+   The model (coq/model/ConcModel.v) describes the CURRENT tree: with the repairs F30 (hook
+   scan over a snapshot), F32 (defaults dict published when complete), F33 (v1 catch-all
+   marker read, not popped) and F34 (Env.reload loads environ first) in place.  One defect
+   is open: F31 (two-phase fill of the JSON-path tables).
+
+   PARTIAL: the theorems are about the micro-step model (one scheduling point per
+   shared-table access; CPython rules R1-R4 stated there).  Missing for the full property:
+   classes with JSON-path fields (refuted, F31), races inside a micro-step, C-extension GIL
+   release points, free-threaded builds, the v1 engine as a full program (only the
+   catch-all protocol is modelled). *)
 From DW Require Import PyStr T_ConcHooks ConcModel ConcProofs ConcLibProofs.
 From Coq Require Import List.
 Import ListNotations.
 
 (* 1. The general theorem.  R = admissible values per table entry, Imp = publication order.
-      If every thread's program is memo-shaped (writes admissible values only; result r
-      independent of whether reads hit or miss), then FOR EVERY SCHEDULE - any number of
-      threads, any length, preemption between any two shared-table accesses - a thread that
-      has finished returned exactly r, and every table entry is admissible. *)
+      If every thread's program is memo-shaped (writes admissible values only, publishes an
+      entry after the entries it implies; result r independent of whether reads hit or miss),
+      then FOR EVERY SCHEDULE - any number of threads, any length, preemption between any two
+      shared-table accesses - a thread that has finished returned exactly r, and every table
+      entry is admissible. *)
 Theorem C20_memo_linearizable :
   forall (R : tab -> key -> val -> Prop) (Imp : tab -> key -> val -> list (tab * key))
          (ps : list prog) (rs : list (list outcome)) (s : store),
@@ -36,72 +43,84 @@ Proof. exact memo_sequential. Qed.
 Print Assumptions C20_memo_sequential.
 
 (* 3. The memo protocols of the library, by name, are memo-shaped (with the library's
-      admissible-value relation R_lib), whatever continuation follows them; `fx` = which of the
-      proposed repairs are present in the tree (the statements hold for every combination). *)
-Notation M := (memo_prog R_lib Imp_lib).
-Definition cont_ok K (c : prog) r := forall K', incl K K' -> M K' c r.
+      admissible-value relation R_lib cd and publication map Imp_lib cd for the class cd),
+      whatever continuation follows them.  `fx` = whether the proposed repair of F31 is in
+      the tree (the statements hold either way). *)
+Notation M cd := (memo_prog (R_lib cd) (Imp_lib cd)).
+Definition cont_ok cd K (c : prog) r := forall K', incl K K' -> M cd K' c r.
+Definition dflt_of (cd : cdesc) : list nat := dflt_ids (cd_fields cd) 0.
 
-Theorem C20_protocols :
+Theorem C20_protocols : forall cd,
   (* FIELDS: dataclass_fields *)
-  (forall K c r, cont_ok K c r -> M K (p_fields c) r) /\
+  (forall K c r, cont_ok cd K c r -> M cd K (p_fields c) r) /\
   (* CLASS_TO_LOADER: get_loader *)
-  (forall tid K c r, cont_ok K c r -> M K (p_loader tid c) r) /\
+  (forall tid K c r, cont_ok cd K c r -> M cd K (p_loader tid c) r) /\
   (* CLASS_TO_DUMPER: get_dumper (store, then re-read) *)
-  (forall tid K c r, (forall o K', incl K K' -> M K' (c o) r) -> M K (p_dumper tid c) r) /\
+  (forall tid K c r, (forall o K', incl K K' -> M cd K' (c o) r) -> M cd K (p_dumper tid c) r) /\
   (* FIELD_NAME_TO_LOAD_PARSER + key-cache seeding: _setup_load_config_for_cls, class without JSON paths *)
-  (forall fx cd K c r, no_paths cd -> cont_ok K c r -> M K (p_load_cfg fx cd c) r) /\
+  (forall fx K c r, no_paths cd -> cont_ok cd K c r -> M cd K (p_load_cfg fx cd c) r) /\
   (* IS_DUMP_CONFIG_SETUP (flag written AFTER the fill): setup_dump_config_for_cls_if_needed, no JSON paths *)
-  (forall fx cd K c r, no_paths cd -> cont_ok K c r -> M K (p_dump_cfg fx cd c) r) /\
+  (forall fx K c r, no_paths cd -> cont_ok cd K c r -> M cd K (p_dump_cfg fx cd c) r) /\
   (* setattr(cls, 'from_dict' / 'to_dict', generated function): _set_new_attribute *)
-  (forall cd a K c r, cont_ok K c r -> M K (p_setattr cd a c) r) /\
+  (forall a K c r, cont_ok cd K c r -> M cd K (p_setattr cd a c) r) /\
   (* JSON key cache of the generated load function, positive and negative (ExplicitNull) entries *)
-  (forall ks K c r, cont_ok K c r -> M K (key_loop ks c) r) /\
-  (* FIELD_TO_DEFAULT, writer side (the READERS of a half-filled dict are refuted below) *)
-  (forall fx tid cd K c r, (forall o K', incl K K' -> M K' (c o) r) -> M K (p_defaults fx tid cd c) r) /\
+  (forall ks K c r, cont_ok cd K c r -> M cd K (key_loop ks c) r) /\
+  (* FIELD_TO_DEFAULT (fill a local dict, publish, re-read): whoever is handed a dict (its own or
+     another thread's) knows EVERY default to be in it *)
+  (forall tid K c r,
+     (forall o K', incl K K' -> (forall j, In j (dflt_of cd) -> In (T_DEFAULTS o, j) K') -> M cd K' (c o) r) ->
+     M cd K (p_defaults tid cd c) r) /\
+  (* dump hook cache + hook scan over a snapshot: every run-time type of the value *)
+  (forall o v K c r, cont_ok cd K c r -> M cd K (p_value o v c) r) /\
   (* lookups.environ: Env.load_environ() *)
-  (forall tid K c r, (forall K', incl K K' -> In (T_ENVIRON, 0) K' -> M K' c r) -> M K (p_load_environ tid false c) r) /\
+  (forall tid K c r, (forall K', incl K K' -> In (T_ENVIRON, 0) K' -> M cd K' c r) -> M cd K (p_load_environ tid false c) r) /\
   (* Env.var_names (cached class property) read after environ is loaded *)
-  (forall oid K c r, In (T_ENVIRON, 0) K -> (forall K', incl K K' -> M K' (c 1) r) -> M K (p_member oid c) r).
+  (forall oid K c r, In (T_ENVIRON, 0) K -> (forall K', incl K K' -> M cd K' (c 1) r) -> M cd K (p_member oid c) r) /\
+  (* Env.cleaned_to_env (cached class property) *)
+  (forall tid K c r, In (T_ENVIRON, 0) K ->
+     (forall a K', incl K K' -> In (T_OBJ, a) K' -> M cd K' (c a) r) -> M cd K (p_cleaned tid c) r) /\
+  (* Env.reload(): load, var_names, forced reload, in-place updates of the cached set / dict *)
+  (forall tid K c r, (forall K', incl K K' -> In (T_ENVIRON, 0) K' -> M cd K' c r) -> M cd K (p_reload tid c) r).
 Proof.
-  repeat split.
-  - exact M_p_fields. - exact M_p_loader. - exact M_p_dumper. - exact M_p_load_cfg. - exact M_p_dump_cfg.
-  - exact M_p_setattr. - exact M_key_loop. - exact M_p_defaults. - exact M_p_load_environ. - exact M_p_member.
+  intro cd. repeat split.
+  - exact (M_p_fields cd). - exact (M_p_loader cd). - exact (M_p_dumper cd). - exact (M_p_load_cfg cd).
+  - exact (M_p_dump_cfg cd). - exact (M_p_setattr cd). - exact (M_key_loop cd). - exact (M_p_defaults cd).
+  - exact (M_p_value cd). - exact (M_p_load_environ cd). - exact (M_p_member cd). - exact (M_p_cleaned cd).
+  - exact (M_p_reload cd).
 Qed.
 Print Assumptions C20_protocols.
 
-(* 4. Complete programs in the safe region: CLASS_TO_LOAD_FUNC / CLASS_TO_DUMP_FUNC
-      check -> generate -> store -> call, and EnvWizard.__init__. *)
+(* 4. Complete programs: CLASS_TO_LOAD_FUNC / CLASS_TO_DUMP_FUNC check -> generate -> store ->
+      call; EnvWizard.__init__ with and without _reload; first load of a v1 catch-all class.
+      Load and dump need: no JSON-path field.  Nothing else: any defaults with or without
+      skip_defaults, any run-time type of the dumped values, wizard subclass or not. *)
 Theorem C20_load_plain :
-  forall fx tid cd ks K, no_paths cd -> M K (call_load fx tid cd ks) [OSeq].
+  forall cd fx tid ks K, no_paths cd -> M cd K (call_load fx tid cd ks) [OSeq].
 Proof. exact load_plain. Qed.
 Print Assumptions C20_load_plain.
 
 Theorem C20_dump_plain :
-  forall fx tid cd vals K, safe_dump cd -> vals_ok fx vals -> M K (call_dump fx tid cd vals) [OSeq].
+  forall cd fx tid vals K, no_paths cd -> M cd K (call_dump fx tid cd vals) [OSeq].
 Proof. exact dump_plain. Qed.
 Print Assumptions C20_dump_plain.
 
-Theorem C20_env_plain : forall fx tid K, M K (call_env fx tid false) [OSeq].
+Theorem C20_env_plain : forall cd tid reload K, M cd K (call_env tid reload) [OSeq].
 Proof. exact env_plain. Qed.
 Print Assumptions C20_env_plain.
 
-(* 4b. The REPAIRED hook scan (`for t in tuple(hooks)`, proposed_fixes/F30.patch) is memo-shaped for
-       EVERY run-time type of the value: with the repair in the tree, first sight of a subtype is
-       inside the safe region of C20_partial (vals_ok fx holds for all values). *)
-Theorem C20_hook_scan_repaired :
-  forall fx o v K c r, fx30 fx = true -> cont_ok K c r -> M K (p_value fx o v c) r.
-Proof. exact M_p_value_repaired. Qed.
-Print Assumptions C20_hook_scan_repaired.
+Theorem C20_v1_catchall_plain : forall cd K, M cd K call_v1_catchall [OSeq].
+Proof. exact v1_catchall_plain. Qed.
+Print Assumptions C20_v1_catchall_plain.
 
 (* 5. C20 on the safe region: any number of threads, each any list of load / dump /
-      EnvWizard() calls on a class without JSON-path fields (dump: no skip_defaults together
-      with default fields; values of hook-table types, or any values once the hook scan is
-      repaired; no _reload) - under EVERY schedule
-      every finished thread returned the sequential result of each of its calls.
-      MISSING for the full property: classes outside the region (refuted below), v1. *)
+      EnvWizard() (with or without _reload) / v1-catch-all-load calls, on a class without
+      JSON-path fields - under EVERY schedule every finished thread returned the sequential
+      result of each of its calls.
+      MISSING for the full property: classes with JSON-path fields (refuted below, F31);
+      the v1 engine beyond the catch-all protocol. *)
 Theorem C20_partial :
-  forall (fx : fixes) (cd : cdesc) (pss : list (list call)),
-    Forall (Forall (safe_call fx cd)) pss ->
+  forall (cd : cdesc) (fx : fixes) (pss : list (list call)),
+    Forall (Forall (safe_call cd)) pss ->
     forall (sched : list nat) (i : nat) (t : thread) (os : list outcome),
       nth_error (snd (run sched (scenario fx cd pss))) i = Some t ->
       finished t = Some os ->
@@ -109,52 +128,29 @@ Theorem C20_partial :
 Proof. exact lib_linearizable. Qed.
 Print Assumptions C20_partial.
 
-(* non-vacuity: a three-field class, three threads with five calls between them *)
+(* non-vacuity: a wizard class with defaults and skip_defaults, values of new subtypes, a
+   reloading EnvWizard, the v1 catch-all load: three threads, seven calls *)
 Example C20_partial_nonvacuous :
-  let cd := mkC [mkF false false; mkF false false; mkF true false] true false false in
-  Forall (Forall (safe_call no_fixes cd))
-    [[CLoad [KCamel 0; KExact 1; KUnknown 0]; CDump [VTBase 1; VTBase 0; VTBase 1]];
-     [CDump [VTBase 1; VTBase 1; VTBase 1]; CLoad [KExact 0]];
+  let cd := mkC [mkF false false; mkF true false; mkF true false] true true false in
+  Forall (Forall (safe_call cd))
+    [[CLoad [KCamel 0; KExact 1; KUnknown 0]; CDump [VTSub 0 16; VTBase 0; VTOther 2]; CV1Load];
+     [CDump [VTBase 1; VTSub 1 0; VTBase 1]; CLoad [KExact 0]; CEnv true];
      [CEnv false]].
-Proof.
-  cbv zeta.
-  assert (Hb : forall b, Nat.ltb b NBASE = true -> base_val (VTBase b)).
-  { intros b H. exists b. split; [reflexivity | now apply PeanoNat.Nat.ltb_lt]. }
-  repeat match goal with
-         | |- Forall _ [] => constructor
-         | |- Forall _ (_ :: _) => constructor
-         | |- safe_call _ _ (CLoad _) => cbn; repeat constructor
-         | |- safe_call _ _ (CDump _) =>
-             split; [split; [repeat constructor | left; reflexivity]
-                    | right; repeat constructor; apply Hb; vm_compute; reflexivity]
-         | |- safe_call _ _ (CEnv _) => reflexivity
-         end.
-Qed.
+Proof. cbv zeta. repeat constructor. Qed.
 
-(* ... and on it a concrete interleaving really finishes with those results *)
+(* ... and on such a scenario a concrete interleaving really finishes with those results *)
 Example C20_partial_runs :
-  let cd := mkC [mkF false false; mkF true false] false false false in
-  let c := scenario no_fixes cd [[CLoad [KCamel 0; KExact 1]]; [CDump [VTBase 1; VTBase 1]]] in
-  outcomes (run (micro_of RUN_FUEL [0;1;1;0;0;1;0;1;1;1;0;0;0;0;0;1;1;1;1;1;1;1;1;1;1;1;1;0;0;0;0;0;0;0] c) c)
-  = [Some [OSeq]; Some [OSeq]].
+  let cd := mkC [mkF false false; mkF true false] false true true in
+  let c := scenario no_fixes cd [[CDump [VTSub 0 16; VTBase 1]; CEnv true]; [CDump [VTSub 1 0; VTBase 1]; CV1Load]] in
+  let seg := [0;1;1;0;0;1;0;1;1;1;0;0;0;0;0;1;1;1;1;1;1;1;1;1;1;1;1;0;0;0;0;0;0;0] in
+  outcomes (run (micro_of RUN_FUEL seg c ++ sequential2) c) = [Some [OSeq; OSeq]; Some [OSeq; OSeq]].
 Proof. vm_compute. reflexivity. Qed.
 
-(* 6. Outside the safe region the faithful model VIOLATES C20.  Each witness is a schedule
-      (micro-step schedule computed from the yield-point schedule the harness replays on the
-      implementation) whose outcome differs from that of both sequential orders. *)
-
-(* 6a. hook scan `for t in hooks: ... hooks[cls] = ...` (dumpers.py:562-574): A iterates the
-       hook dict, B caches a new subtype in it, A's next iteration step raises RuntimeError. *)
-Theorem C20_refuted_hook_scan :
-  exists sched,
-    outcomes (run sched cfg_hook_scan) = [Some [OErr ERuntime]; Some [OSeq]] /\
-    outcomes (run sequential2 cfg_hook_scan) = [Some [OSeq]; Some [OSeq]] /\
-    outcomes (run sequential2' cfg_hook_scan) = [Some [OSeq]; Some [OSeq]].
-Proof. exists (micro_of RUN_FUEL seg_hook_scan cfg_hook_scan). vm_compute. repeat split. Qed.
-Print Assumptions C20_refuted_hook_scan.
-
-(* 6b. two-phase fill of the per-class JSON-path table read through `set_paths = False if
-       field_to_path else True` (class_helper.py:155, 246): KeyError (dump) / MissingFields (load). *)
+(* 6. The open defect F31: outside the safe region the faithful model VIOLATES C20.
+      `set_paths = False if field_to_path else True` (class_helper.py) takes a JSON-path table
+      that another thread is still filling for a complete one: KeyError (dump) / MissingFields
+      (load).  Each witness is a micro-step schedule (computed from the yield-point schedule the
+      harness replays on the implementation) whose outcome differs from both sequential orders. *)
 Theorem C20_refuted_path_fill :
   (exists sched,
      outcomes (run sched cfg_path_dump) = [Some [OSeq]; Some [OErr EKeyError]] /\
@@ -171,51 +167,28 @@ Proof.
 Qed.
 Print Assumptions C20_refuted_path_fill.
 
-(* 6c. FIELD_TO_DEFAULT[cls] registered empty, then filled (class_helper.py:504-510): a dump
-       function generated meanwhile ignores skip_defaults for the fields not yet filled in. *)
-Theorem C20_refuted_defaults_fill :
-  exists sched,
-    outcomes (run sched cfg_defaults) = [Some [OSeq]; Some [OWrong]] /\
-    outcomes (run sequential2 cfg_defaults) = [Some [OSeq]; Some [OSeq]] /\
-    outcomes (run sequential2' cfg_defaults) = [Some [OSeq]; Some [OSeq]].
-Proof. exists (micro_of RUN_FUEL seg_defaults cfg_defaults). vm_compute. repeat split. Qed.
-Print Assumptions C20_refuted_defaults_fill.
-
-(* 6d. v1: `field_to_aliases.pop(CATCH_ALL, None)` on the shared alias table (v1/loaders.py:1052). *)
-Theorem C20_refuted_v1_catchall_pop :
-  exists sched,
-    outcomes (run sched cfg_v1_catchall) = [Some [OErr ETypeError]; Some [OSeq]] /\
-    outcomes (run sequential2 cfg_v1_catchall) = [Some [OSeq]; Some [OSeq]] /\
-    outcomes (run sequential2' cfg_v1_catchall) = [Some [OSeq]; Some [OSeq]].
-Proof. exists (micro_of RUN_FUEL seg_v1_catchall cfg_v1_catchall). vm_compute. repeat split. Qed.
-Print Assumptions C20_refuted_v1_catchall_pop.
-
-(* 6e. Env.reload() caches Env.var_names from an unset `environ` (environ/lookups.py:57-76). *)
-Theorem C20_refuted_env_reload :
-  exists sched,
-    outcomes (run sched cfg_env_reload) = [Some [OErr EMissingVars]; Some [OSeq]] /\
-    outcomes (run sequential2 cfg_env_reload) = [Some [OSeq]; Some [OSeq]] /\
-    outcomes (run sequential2' cfg_env_reload) = [Some [OSeq]; Some [OSeq]].
-Proof. exists (micro_of RUN_FUEL seg_env_reload cfg_env_reload). vm_compute. repeat split. Qed.
-Print Assumptions C20_refuted_env_reload.
-
-(* 6f. The proposed repairs (proposed_fixes/F30..F34.patch), switched on in the model, remove every
-       witness: the same yield-point schedules (completed by running both threads to their end) now
-       give the sequential results.  This is a statement about THESE schedules only; that the repaired
-       protocols are linearizable under every schedule is established by the exhaustive bounded
-       exploration of the harness on a repaired tree, not proved here. *)
-Theorem C20_repairs_remove_witnesses :
-  replay_on seg_hook_scan fixed_hook_scan = [Some [OSeq]; Some [OSeq]] /\
+(* 6b. The proposed repair of F31 (proposed_fixes/F31.patch), switched on in the model, removes
+       the witnesses (these schedules only; not proved for every schedule). *)
+Theorem C20_f31_repair_removes_witnesses :
   replay_on seg_path_dump fixed_path_dump = [Some [OSeq]; Some [OSeq]] /\
-  replay_on seg_path_load fixed_path_load = [Some [OSeq]; Some [OSeq]] /\
-  replay_on seg_defaults fixed_defaults = [Some [OSeq]; Some [OSeq]] /\
-  replay_on seg_v1_catchall fixed_v1_catchall = [Some [OSeq]; Some [OSeq]] /\
-  replay_on seg_env_reload fixed_env_reload = [Some [OSeq]; Some [OSeq]].
+  replay_on seg_path_load fixed_path_load = [Some [OSeq]; Some [OSeq]].
 Proof. vm_compute. repeat split. Qed.
-Print Assumptions C20_repairs_remove_witnesses.
+Print Assumptions C20_f31_repair_removes_witnesses.
+
+(* 6c. Regression examples: the schedules that exposed the four defects repaired since (F30 hook
+       scan, F32 defaults registered empty, F33 v1 catch-all pop, F34 Env.reload) now give the
+       sequential results in the model (instances of C20_partial; the harness replays the same
+       schedules on the implementation on every run). *)
+Theorem C20_former_witnesses_sequential :
+  replay_on seg_hook_scan cfg_hook_scan = [Some [OSeq]; Some [OSeq]] /\
+  replay_on seg_defaults cfg_defaults = [Some [OSeq]; Some [OSeq]] /\
+  replay_on seg_v1_catchall cfg_v1_catchall = [Some [OSeq]; Some [OSeq]] /\
+  replay_on seg_env_reload cfg_env_reload = [Some [OSeq]; Some [OSeq]].
+Proof. vm_compute. repeat split. Qed.
+Print Assumptions C20_former_witnesses_sequential.
 
 (* 7. Tie T: the default dump-hook table (iteration order of the hook scan) regenerated from
-      the source is the documented one; the positions the witnesses use are those of dict / str. *)
+      the source is the documented one; the positions the examples use are those of dict / str. *)
 Theorem C20_hook_table :
   conc_dump_hook_types =
     [S "str"; S "int"; S "float"; S "bool"; S "bytes"; S "bytearray"; S "NoneType"; S "Enum"; S "UUID";
